@@ -41,7 +41,7 @@ Silent == (ScanLine \/ ScanPartial \/ SkipBlankAtMax \/ ParseFail) /\ UNCHANGED 
 
 TraceEmit == IsEv("Emit") /\ Emit /\ pos = Rec.line /\ l' = l + 1
 
-TraceShort == IsEv("ShortWrite") /\ EmitWriteFail /\ wr.kind = "short" /\ pos = Rec.line /\ l' = l + 1
+TraceShort == IsEv("ShortWrite") /\ EmitWriteFail /\ wr.kind \in {"short", "shortonce"} /\ pos = Rec.line /\ l' = l + 1
 
 TraceEnd ==
   /\ IsEv("End") /\ l' = l + 1
